@@ -91,7 +91,13 @@ class Ownership:
                         for t in n.targets:
                             if isinstance(t, ast.Attribute) and t.attr.startswith("_") \
                                     and isinstance(t.value, ast.Name) and t.value.id != f.self_name:
-                                bps.add(t.attr)
+                                # the back-pointer is what gets the owner (or None): other private
+                                # attributes written on other objects are not it
+                                v_ = n.value
+                                owner_or_none = (isinstance(v_, ast.Constant) and v_.value is None) or \
+                                    attr_path(v_) == (f.self_name, "_node")
+                                if owner_or_none:
+                                    bps.add(t.attr)
             if len(bps) != 1:
                 raise AnalysisError("cannot determine the back-pointer written by %s: %s"
                                     % (c.qualname, sorted(bps)))
